@@ -11,102 +11,127 @@ NOT_APPLICABLE = {}
 
 CHECKS = {
     "C06": {
-        "text": ("Lean model of the whole validation chain (TypeInfo stacks, ChainedVisitor/SkipNode semantics, all 26 rule visitors, VariablesCollector, fragment cycle search, "
-                 "field-merge search with its caches) whose rule list must equal SPECIFIED_RULES RE-EXTRACTED from validate.py each run (rules_match_source, decide); "
-                 "rule_*_iff for five rules (unique argument names, unique directives per location, single field subscriptions, known type names, variables are input types) on top of "
-                 "visitDocument_E (a non-skipping chain enters/leaves every node exactly once); verdict_iff_partial and perm_definitions_partial for those; machine-checked "
-                 "refutations of order-invariance for the UNFIXED collector (V3, V4). 21 rules are listed in Spec.Unproved. Tied by correspondence (verdict on every document; set of "
-                 "reporting rules on single-violation documents; every rule standalone) and the direct oracle: valid-by-construction => no error, each of 29 labelled single-rule "
-                 "violations => error attributable to that rule, verdict unchanged under the six transformations."),
-        "note": ("Trusted: Lean kernel; generators/injectors; is_subtype/types_overlap hand-modelled. Most rules and the alpha/perm invariances rest on the correspondence + oracle, not on "
-                 "theorems. Known finding V8 (list literal at non-list position accepted)."),
-        "technique": "Lean 4 proof (5 of 26 rules, chain walk) + full-chain model correspondence + labelled-violation/metamorphic oracle",
+        "text": ('Lean model of the whole validation chain (TypeInfo stacks, ChainedVisitor/SkipNode semantics, all 26 rule visitors, VariablesCollector, fragment cycle'
+                 ' search, field-merge search with its caches) whose rule list must equal SPECIFIED_RULES RE-EXTRACTED from validate.py each run (rules_match_source); r'
+                 'ule_*_iff for 10 rules (executable definitions, lone anonymous operation, unique operation / fragment names, known fragment names, unique argument nam'
+                 'es, unique directives per location, single field subscriptions, known type names, variables are input types) on top of visitDocument_E (a non-skipping'
+                 ' chain enters/leaves every node exactly once); for those: verdict_iff_partial, perm_definitions/selections/arguments_partial, alpha_fragments_partial,'
+                 ' attribution_partial; machine-checked refutations of order-invariance for the UNFIXED collector (V3, V4). 16 rules are listed in Spec.Unproved. Tied b'
+                 'y correspondence (verdict on every document; set of reporting rules on single-violation documents; every rule standalone) and the direct oracle: valid'
+                 '-by-construction => no error, each of 35 labelled single-rule violations => error attributable to that rule, verdict unchanged under the six transform'
+                 'ations.'),
+        "note": ('Trusted: Lean kernel; generators/injectors; is_subtype/types_overlap hand-modelled. The 16 unproved rules and alias/variable renaming rest on the corr'
+                 'espondence + oracle. Known finding V8 (list literal at non-list position accepted).'),
+        "technique": 'Lean 4 proof (10 of 26 rules, chain walk, invariances) + full-chain model correspondence + labelled-violation/metamorphic oracle',
     },
     "C08": {
-        "text": ("Lean model of chain / unwrap_future / gather_futures (counter state machine) / asyncio gather_values and of the generic Executor over a simplified operation form with "
-                 "schedule-driven completion: gather_slots, gather_first_exception, chain_else, unwrap_*, gather_values_patch, schedule_independent, unexpected_surfaces (full); "
-                 "async_eq_blocking_partial (data and failure status equal the blocking executor's for every schedule; error-list permutation unproved), always_terminates_partial. "
-                 "Tied by running the REAL combinators/executors under a controlled scheduler (manual executor for the thread pool, harness-resolved futures on a private asyncio loop): "
-                 "all schedules for <=4/6 tasks, four configurations, pairwise equality oracle + trace correspondence, watchdog for hangs."),
-        "note": ("Trusted: Lean kernel; generators; asyncio task scheduling is only exercised. Residual that no model here exhibits: true parallel interleaving of callback bodies on "
-                 "worker threads (non-atomic `done += 1` in gather_futures) — touched only by a short real-thread smoke run."),
-        "technique": "Lean 4 proof (combinator state machines, schedule independence) + controlled-schedule exhaustive correspondence",
+        "text": ('Lean model of chain / unwrap_future / gather_futures (counter state machine) / asyncio gather_values and of the generic Executor over a simplified ope'
+                 'ration form with schedule-driven completion (modes sync, deferred, nested, already-finished): gather_slots, gather_first_exception, chain_else, unwrap'
+                 '_*, gather_values_patch, schedule_independent, unexpected_surfaces, async_eq_blocking (for every schedule: same data, error lists are permutations), a'
+                 'lways_terminates (Live invariant over whole executor trees), all full. Tied by running the REAL combinators/executors under a controlled scheduler (ma'
+                 'nual executor incl. completion at submit; harness-resolved futures on a private asyncio loop) for all schedules of <=4/6 tasks in four configurations,'
+                 ' plus REAL 1- and 2-worker pools with in-flight resolvers and nested futures; pairwise equality oracle, trace correspondence, confirmed watchdog for h'
+                 'angs.'),
+        "note": ('Trusted: Lean kernel; generators; asyncio task scheduling is only exercised. Residual that no model here exhibits: true parallel interleaving of callb'
+                 'ack bodies on worker threads (non-atomic `done += 1` in gather_futures).'),
+        "technique": 'Lean 4 proof (combinator state machines, schedule independence, termination) + controlled-schedule exhaustive correspondence',
     },
     "C09": {
-        "text": ("execute_fields_serially as the code's state machine over the C08 algebra: keys_in_order, failure_does_not_stop, blocking_serial (full), serial_order_partial (the next "
-                 "top-level field cannot start while the current field's node holds an outstanding task; trace form kept visible). Tied by call/done event traces of the real executors under "
-                 "all completion orders (four configurations) and the direct trace-predicate oracle."),
-        "note": "Trusted: Lean kernel; generators. The transfer of serial_order from tree states to trace positions is unproved (checked on every generated trace).",
-        "technique": "Lean 4 proof (serial queue machine) + controlled-schedule trace oracle",
+        "text": ("execute_fields_serially as the code's state machine over the C08 algebra: keys_in_order, failure_does_not_stop, blocking_serial (full), serial_order_p"
+                 "artial (the next top-level field cannot start while the current field's node holds an outstanding task; trace form kept visible). Tied by call/done ev"
+                 'ent traces of the real executors under all completion orders (four configurations, real small pools, fragment-only mutation roots, nested futures fail'
+                 'ing at each position) and the direct trace-predicate oracle.'),
+        "note": ('Trusted: Lean kernel; generators. The transfer of serial_order from tree states to trace positions is unproved (checked on every generated trace).'),
+        "technique": 'Lean 4 proof (serial queue machine) + controlled-schedule trace oracle',
     },
     "C04": {
-        "text": ("Lean model of collect_fields (with the _seen_fragments quirk), _skip_selection, _fragment_type_applies, execute_fields, resolve_field, complete_value, "
-                 "resolve_type and the error accumulator, and the spec's CollectFields/ExecuteSelectionSet/CompleteValue: skip_include, alias_merge, keys_document_order, "
-                 "siblings_undisturbed, abstract_possible_type, local null/error lemmas, exec_pure (possible-types cache = stateless function after any history), "
-                 "exec_refines_spec_partial (exact equality model = spec on documents without named spreads; quirk witness machine-checked). Tied by ordered-data / "
-                 "error-multiset correspondence real executor vs model vs Lean spec on generated schemas, valid operations, worlds and request histories."),
-        "note": ("Trusted: Lean kernel; generators; argument/variable coercion computed by the real code (opaque here, C07); introspection fields, async executor and "
-                 "hooks not in this model. Refinement with named fragment spreads and the global null-error bijection are unproved (correspondence only)."),
-        "technique": "Lean 4 proof (executor model vs spec) + world-resolver correspondence",
+        "text": ('Lean model of collect_fields (with the _seen_fragments quirk), _skip_selection, _fragment_type_applies, execute_fields, resolve_field, complete_value,'
+                 " resolve_type, serialisation and the error accumulator, and the spec's CollectFields/ExecuteSelectionSet/CompleteValue: skip_include, alias_merge, key"
+                 's_document_order, abstract_possible_type, local null/error lemmas, null_error_bijection (global: error paths are distinct and each is a null position)'
+                 ", exec_world_congr / siblings_undisturbed_world (changing the world under one response key leaves every other key's data and errors identical), exec_p"
+                 'ure, fuel monotonicity/sufficiency (every ranked document responds), exec_refines_spec_partial (exact equality model = spec without named spreads; wit'
+                 'h spreads reduced to agreement of collect_fields: exec_refines_spec_of_collect; quirk witness machine-checked). Tied by ordered-data / error-multiset '
+                 'correspondence real executor vs model vs Lean spec on generated schemas, valid operations (multi-spread with conditions), worlds and request histories'
+                 '.'),
+        "note": ('Trusted: Lean kernel; generators; argument/variable coercion computed by the real code (opaque here, C07); introspection fields and the async executor'
+                 " are other properties' models."),
+        "technique": 'Lean 4 proof (executor model vs spec, bijection, locality) + world-resolver correspondence',
     },
     "C05": {
-        "text": ("validated_no_internal_error_partial (collect_fields never takes an internal branch under the declarative ValidDoc), validated_shape / validated_shape_field "
-                 "(every computed value has the shape of its declared type, unconditionally) on the executor model; tied by an adversarial stream of invalid/mutated "
-                 "documents: validate_ast must return; accepted => ValidDoc (Lean) and execution under typed worlds raises no internal exception and has the schema shape."),
-        "note": ("Trusted: Lean kernel; generators. The executeFields half of validated_no_internal_error is unproved; the 26 rules themselves belong to C06. "
-                 "Known finding V8 (`@include(if: [true])` passes validation and raises CoercionError at execution)."),
-        "technique": "Lean 4 proof (type soundness lemmas) + adversarial validate/execute oracle",
+        "text": ('validated_no_internal_error (full: under SchemaOk, the declarative ValidDoc, KeyConsistent and a typed world no request ends in an internal exception;'
+                 ' each side condition is tied to the branch it closes), validated_shape / validated_shape_field, rank certificates checked on every accepted document; '
+                 'tied by an adversarial stream of invalid/mutated documents: validate_ast must return; accepted => ValidDoc (Lean) and execution under typed worlds rai'
+                 'ses no internal exception, has the schema shape and one unambiguous value per response key.'),
+        "note": ('Trusted: Lean kernel; generators. KeyConsistent is stronger than OverlappingFieldsCanBeMerged (reported as a statistic); the 26 rules themselves belon'
+                 'g to C06. Known finding V8 (`@include(if: [true])` passes validation and raises CoercionError at execution).'),
+        "technique": 'Lean 4 proof (type soundness of the executor model) + adversarial validate/execute oracle',
     },
     "C07": {
-        "text": ("Lean model of coerce_value / value_from_ast / coerce_variable_values / coerce_argument_values / scalar parsers with the Int range test and the Float "
-                 "finiteness guard TRANSLATED from scalars.py each run: variable_sound, literal_sound, variables_sound, arguments_sound (=> Conforms), int_full_range, "
-                 "literal_variable_equiv (same outcome on both routes, recursive input objects included), omission/wrapping/rejection theorems, floatGuard_spec; all full. "
-                 "Tied by correspondence on all type expressions x literals x JSON values x provided/omitted/null and by the kwargs seen by recording resolvers in real runs "
-                 "(incl. divergent interface implementations sharing one field node)."),
-        "note": "Trusted: Lean kernel; translator; Python int()/float() parsing enters as harness-observed annotations; fuel universally quantified; VarsFit is a hypothesis.",
-        "technique": "Lean 4 proof (coercion soundness + route equivalence) + source-translated range tests + resolver-kwargs correspondence",
+        "text": ('Lean model of coerce_value / value_from_ast / coerce_variable_values / coerce_argument_values / scalar parsers with the Int range test and the Float f'
+                 'initeness guard TRANSLATED from scalars.py each run: variable_sound, literal_sound, variables_sound, arguments_sound (=> Conforms), int_full_range, li'
+                 'teral_variable_equiv (same outcome on both routes, recursive input objects), omission/wrapping/rejection theorems, floatGuard_spec, fuel-free restatem'
+                 'ents with a proved fuel bound, the bridge validated_arguments_sound (VariablesInAllowedPosition + variables_sound => VarsFit) and the trace theorems n'
+                 'o_resolver_call_on_rejected_arguments/variables, every_call_conforms. Tied by correspondence on all type expressions x literals x JSON values x provid'
+                 'ed/omitted/null and by the calls recording resolvers actually see in real runs (order and kwargs; divergent interface implementations sharing one fiel'
+                 'd node).'),
+        "note": ('Trusted: Lean kernel; translator; Python int()/float() parsing enters as harness-observed annotations. The trace model covers top-level selections (ne'
+                 'sted ones by the pipeline oracle).'),
+        "technique": 'Lean 4 proof (coercion soundness, route equivalence, before-resolver trace) + source-translated range tests + resolver-kwargs correspondence',
     },
     "C01": {
-        "text": ("Lexer part: Lean model of Lexer.__next__/_read_* and index_to_loc/highlight_location with theorems error_in_range_partial "
-                 "(+ machine-checked refutation of the full statement: position len+1 pinned by the suite, finding L6), render_total, "
-                 "index_to_loc_total_iff and table-to-spec theorems over IGNORED_CHARS/SYMBOLS/QUOTED_CHARS/digit/name classes RE-EXTRACTED from lexer.py "
-                 "each run. Parser part: Lean model of every parse_* with parseValue/parseType sound+complete+accepts_iff for all 8 flag combinations "
-                 "(document grammar: parse_sound_partial/parse_complete_partial, full statements kept visible) and theorems over the keyword/location tables "
-                 "re-extracted from parser.py. Tied by token/AST correspondence on grammar-directed documents, mutants, every prefix, fixtures and "
-                 "bounded-exhaustive token strings, plus direct oracles (spec recognisers, error contract, ignored-run invariance)."),
-        "note": ("Trusted: Lean kernel; table extraction; generators. lex_sound/lex_render and document-level parse soundness are NOT proved: they rest on the "
-                 "correspondence and on the compiled grammar matcher run on every accepted document. RecursionError on deep nesting is the named probe (finding P1)."),
-        "technique": "Lean 4 proof (value/type grammar, tables, error rendering) + extracted tables + token/AST correspondence",
+        "text": ('Lexer: Lean model of Lexer.__next__/_read_* with lex_sound (tokens tile the text between ignored runs; every lexeme satisfies its spec recogniser and '
+                 'decodes to the token value; maximal munch and number look-ahead), lex_fuel_sufficient, lex_render_partial / lex_ignored_invariant_partial (punctuators'
+                 ', names, quoted strings: re-rendering with other ignored runs keeps kinds and values), error_in_range_partial (+ refutation: position len+1 pinned, fi'
+                 'nding L6), render_total, table-to-spec theorems over the tables RE-EXTRACTED from lexer.py each run. Parser: Lean model of every parse_* with parse_so'
+                 'und_document, parse_complete_document and parseDocument_accepts_iff (the token list is accepted exactly when it derives from the grammar) for all 8 fl'
+                 'ag combinations and the three entry points; parse_text_accepts_iff_partial composes both; keyword/location tables re-extracted from parser.py. Tied by'
+                 ' text->tokens->AST correspondence (str and UTF-8 bytes) on grammar-directed documents, mutants, every prefix, fixtures, CR/LF/CRLF variants and bounde'
+                 'd-exhaustive token strings, plus direct oracles (spec recognisers, error contract, ignored-run invariance).'),
+        "note": ('Trusted: Lean kernel; table extraction; generators. lex_render is partial (number and block-string completeness against the recognisers is exercised, '
+                 'not proved). RecursionError on deep nesting is the named probe (finding P1).'),
+        "technique": 'Lean 4 proof (lexer soundness, grammar acceptance iff, tables) + extracted tables + text/token/AST correspondence',
     },
     "C02": {
-        "text": ("block_string_spec (parse_block_string model = BlockStringValue transcribed from the spec, all inputs), escape_spec (iff with StringCharacter*), "
-                 "number_verbatim; span_spec_type/span_spec_value and matches_spans (matcher => declarative derivation with spans), noloc theorems; document spans "
-                 "are span_spec_partial. Tied by correspondence of decoded values and of every node's loc, and the direct oracle 'source[loc] re-parses to an equal node'."),
-        "note": "Trusted: Lean kernel; generators. Document-level span_spec is partial (values and types proved); the rest rests on the correspondence and re-parse oracle.",
-        "technique": "Lean 4 proof (block strings, escapes, value/type spans) + decode/span correspondence + re-parse oracle",
+        "text": ('block_string_spec (parse_block_string model = BlockStringValue transcribed from the spec, all inputs), escape_spec (iff with StringCharacter*), number'
+                 "_verbatim; span_spec_document (every node's loc is the span of its own token segment, siblings consecutive, children nested) for all documents and fla"
+                 "g combinations; noloc_erasure (no_location only erases positions) and noloc_acceptance. Tied by correspondence of decoded values and of every node's l"
+                 "oc, and the direct oracle 'source[loc] re-parses to an equal node' incl. trailing children (directives of variable definitions, ...)."),
+        "note": ('Trusted: Lean kernel; generators; the lexer positions feeding the spans are covered by lex_sound (C01).'),
+        "technique": 'Lean 4 proof (block strings, escapes, spans for all documents, no_location erasure) + decode/span correspondence + re-parse oracle',
     },
     "C03": {
-        "text": ("quoted_roundtrip (lexAll (jsonDumps v) is exactly the String token v, all code-point lists), block_roundtrip_partial (escaping half; full statement visible "
-                 "with decide-checked instances); printer string encoders modelled and compared as exact text; direct oracle decode(print(s)) == s and "
-                 "print_ast round trip with strings nested 0-3 deep and as descriptions."),
-        "note": ("Trusted: Lean kernel; generators. The DOCUMENT printer (print_ast over all node kinds) is not yet modelled: its round trip is covered by the direct oracle on "
-                 "generated documents only; layout half of block_roundtrip unproved."),
-        "technique": "Lean 4 proof (string encoders) + exact-text correspondence + print/parse round-trip oracle",
+        "text": ('String level: quoted_roundtrip (lexAll (jsonDumps v) is exactly the String token v, all code-point lists), block_roundtrip_partial (escaping half) + t'
+                 'he three layout lemmas (splitLines/joinLF, commonIndent shift, stripBlank). Document level: Lean model of the whole ASTPrinter (every print_*, _wrap/_'
+                 'join/_block/_indent, indent int or string, include_descriptions); print_parse_type, print_parse_value (all value kinds; block strings under a named hy'
+                 'pothesis), print_tokens_directives, float_lexeme_spec, print_total, print_ignores_member_descriptions; print_parse_partial above directives; print_par'
+                 'se_refuted = machine-checked witness of finding R4 (member descriptions dropped, pinned by test_schema_kitchen_sink). Tied by EXACT-TEXT correspondenc'
+                 'e of the pipeline text -> lexAll -> parse -> print with print_ast on generated executable and type-system documents, fixtures and mutants for 7 indent'
+                 ' settings, and the direct round-trip / stability oracle.'),
+        "note": ('Trusted: Lean kernel; generators. print_parse for selections, operations and type-system definitions is not proved yet (exact-text correspondence + ro'
+                 'und-trip oracle only); layout half of block_roundtrip not composed.'),
+        "technique": 'Lean 4 proof (string encoders, values, types, directives) + exact-text printer correspondence + round-trip oracle',
     },
     "C11": {
-        "text": ("Lean model of the SDL builder (collect definitions/extensions, build_*/extend_*, roots, defaults, deprecation, ignore_extensions, additional_types) with "
-                 "collect_exact, collect_rejects_*, appendNew_* (extension members appended in document order, failure only with ExtensionError); build_exact is refuted by a "
-                 "decide witness (finding S8: defaults coerced before extensions are merged), full statements kept visible. Tied by correspondence of canonical schema dumps on "
-                 "generated SDL (all six kinds, extensions split over blocks, permuted orders, 38 labelled defects) and the direct oracle Declared(doc) / exception class."),
-        "note": "Trusted: Lean kernel; generators; Schema.validate() not modelled (documents rejected only by validation are compared with validation disabled).",
-        "technique": "Lean 4 proof over builder model + schema-dump correspondence + labelled-defect oracle",
+        "text": ('Lean model of the SDL builder (collect definitions/extensions, build_*/extend_*, roots, defaults, deprecation, circular-reference guard, ignore_extens'
+                 'ions, additional_types): collect_exact / collect_ok / collect_rejects_*, build_exact_noext (documents without extensions: build = declared content exa'
+                 'ctly), build_perm_noext / build_perm_roots_noext, extension_merge_exact (base members then block members in document order) with appendNew_*, build_re'
+                 'jects (every error is a library error or the S1b RecursionError; refutation shows the disjunct is needed); build_exact with extensions is refuted by a'
+                 ' decide witness (finding S8), full statements visible. Tied by correspondence of canonical schema dumps on generated SDL (six kinds, extensions split '
+                 'over blocks, permuted orders, 48 labelled defects incl. duplicates among extension-added members) and the direct oracle Declared(doc) / exception clas'
+                 's.'),
+        "note": ('Trusted: Lean kernel; generators; Schema.validate() not modelled (documents rejected only by validation are compared with validation disabled). Known '
+                 'findings S8, S10, S1b.'),
+        "technique": 'Lean 4 proof over builder model + schema-dump correspondence + labelled-defect oracle',
     },
     "C12": {
-        "text": ("Lean model of ASTSchemaPrinter as schema -> text with the module-level directive-name state threaded explicitly: print_pure_partial, printDirectives_state_fixed, "
-                 "generator_consumed / print_pure_refuted_today (the 2-call witness of H1 on a generator state) and print_pure_witness_fixed; model text == real text on every call of "
-                 "random to_string histories; direct oracles dump(build(to_string(s))) == dump(s), fixpoint, purity across histories, parser accepts."),
-        "note": "Trusted: Lean kernel; generators. to_doc_build / print_fixpoint / default_roundtrip are not proved (oracle only); include_introspection not modelled.",
-        "technique": "Lean 4 proof (printer state) + exact-text correspondence over call histories + round-trip oracle",
+        "text": ('Lean model of ASTSchemaPrinter as schema -> text with the module-level directive-name state threaded explicitly: print_pure (for every history of call'
+                 's the k-th output equals the output of that call alone in a fresh state), print_pure_refuted_today_full (text-level 2-call witness of H1 on a generato'
+                 'r state), state lemmas; model text == real text on every call of random to_string histories; every history also runs in ONE forked child and every cal'
+                 'l alone in a fresh child (catches any process-wide hidden state, e.g. function caches on shared custom scalars); direct oracles dump(build(to_string(s'
+                 '))) == dump(s), fixpoint, parser accepts.'),
+        "note": ('Trusted: Lean kernel; generators. to_doc_build / default_roundtrip are not proved (oracle only); include_introspection not modelled. Known findings H2'
+                 ', H3, H5, H6, H8.'),
+        "technique": 'Lean 4 proof (printer purity over call histories) + exact-text correspondence + fresh-process reference + round-trip oracle',
     },
     "C14": {
         "text": ("Object-heap model (identities, shallow copy, heal visitor, clone, transforms, extend) whose code variant flags are RE-EXTRACTED from schema.py / ast_type_builder.py / "
@@ -117,60 +142,71 @@ CHECKS = {
         "technique": "Lean 4 proof over heap model (frame for extend; witnesses) + live object-graph correspondence",
     },
     "C15": {
-        "text": ("introspect_lossless proved in full (decoder(introspect s) = norm s for every schema with <= 7 wrappers; bound shown tight), deprecated_hidden, disabled_hides_all, "
-                 "disabled_keeps_ordinary, meta-field chain and _format_default_value TRANSLATED from source each run; default_parses refuted with four witnesses (finding I1, repair pinned "
-                 "by test_introspection_on_input_object) + default_parses_partial. Tied by correspondence of the full introspection JSON and the direct decode-and-compare / re-parse-default oracle."),
-        "note": "Trusted: Lean kernel; translator; generators. asyncio/thread-pool runs only exercised by the Python oracle.",
-        "technique": "Lean 4 proof (lossless decoder) + source-translated formatter + introspection JSON correspondence",
+        "text": ('introspect_lossless proved in full (decoder(introspect s) = norm s for every schema with <= 7 wrappers; bound shown tight), deprecated_hidden, disable'
+                 'd_hides_all, disabled_keeps_ordinary, read_print (the literal reader inverts print_ast on every literal), default_parses_partial about _format_default'
+                 '_value TRANSLATED from source each run (every default kind round-trips except plain strings with control characters other than TAB/LF/CR) + default_pa'
+                 'rses_refuted (raw FORM FEED, pinned by test_introspection_on_input_object). Tied by correspondence of the full introspection JSON and the direct decod'
+                 'e-and-compare / re-parse-default / empty-reason oracle.'),
+        "note": ('Trusted: Lean kernel; translator; generators. asyncio/thread-pool runs only exercised by the Python oracle. Known finding I1 (residual: control charac'
+                 'ters in plain string defaults).'),
+        "technique": 'Lean 4 proof (lossless decoder, default round trip) + source-translated formatter + introspection JSON correspondence',
     },
     "C16": {
-        "text": ("Trace model of process_graphql_query / execute / both executors' resolve_field / apply_middlewares / MultiInstrumentation: stages_nested (every outcome, executor, schedule), "
-                 "field_hooks_once (every schedule: permutation of per-field chunks), middleware_once_in_order, multi_order, multi_member_sees_all; order under deferred schedules is "
-                 "field_hooks_ordered_partial. Tied by event-trace correspondence on all request outcomes x four configurations x all 36 schedules and the direct bracket/once oracle."),
-        "note": "Trusted: Lean kernel; generators. Known finding N2 (on_field_end fires twice when completion raises ResolverError under Executor). Thread-pool runs use atomic completions only.",
-        "technique": "Lean 4 proof over hook-trace model + controlled-schedule trace correspondence",
+        "text": ("Trace model of process_graphql_query / execute / both executors' resolve_field / apply_middlewares / MultiInstrumentation: stages_nested (every outcom"
+                 'e incl. subscription operations, executor, schedule), field_hooks_once, field_hooks_ordered (every schedule), field_paths_unique, field_hooks_exactly_'
+                 'once_per_path, middleware_once_in_order, multi_order, multi_member_sees_all, all full. Tied by event-trace correspondence on all request outcomes x fo'
+                 'ur configurations x all 36 schedules and the direct bracket/once oracle.'),
+        "note": ('Trusted: Lean kernel; generators. Thread-pool runs use atomic completions only; ApolloTracer payload only checked by the oracle.'),
+        "technique": 'Lean 4 proof over hook-trace model + controlled-schedule trace correspondence',
     },
     "C17": {
-        "text": ("Model of subscribe / create_source_event_stream / execute_subscription_event with the shared executor's error list and clear_errors, AsyncMap: one_result_per_event, "
-                 "kth_result_is_exec_of_kth_event, errors_isolated (+ decide refutation without clear_errors), refusals, accepted_stream, all full. Tied by correspondence and a direct "
-                 "oracle on the real subscribe() on a private asyncio loop (event lists, delays, errors on arbitrary events, every refusal with source-consumption detection)."),
-        "note": "Trusted: Lean kernel; generators. Overlapping __anext__ calls on one executor are outside the sequential protocol modelled.",
-        "technique": "Lean 4 proof over subscription stream model + real asyncio stream oracle",
+        "text": ('Model of subscribe / create_source_event_stream (root collection through fragments: collected_root_fields, root_rule_spelling_independent) / execute_s'
+                 "ubscription_event with the shared executor's error list and clear_errors, AsyncMap: one_result_per_event, kth_result_is_exec_of_kth_event, errors_isol"
+                 'ated (+ decide refutation without clear_errors), refusals (6 clauses, no event consumed), accepted_stream, all full. Tied by correspondence and a dire'
+                 'ct oracle on the real subscribe() on a private asyncio loop (event lists, delays, errors on arbitrary events, every refusal incl. fragment-expanded mu'
+                 'lti-field roots with source-consumption detection, accepted duplicate/fragment spellings of one field).'),
+        "note": ('Trusted: Lean kernel; generators. Overlapping __anext__ calls on one executor are outside the sequential protocol modelled.'),
+        "technique": 'Lean 4 proof over subscription stream model + real asyncio stream oracle',
     },
     "C18": {
-        "text": ("Generic table-driven visitor model over rose trees; the traversal table (children, order, assignment) and dispatch registries are RE-EXTRACTED from visitor.py / ast.py each run: "
-                 "identity_noop, balanced, once, delete_local, replace_local, skip_local, chained_order (all tables/visitors), table facts by decide +kernel; coverage is coverage_partial "
-                 "with machine-checked gap witnesses (findings W1-W6, pinned by test_visitor.py). Tied by trace/tree correspondence with scripted real visitors at every node position and "
-                 "the direct exactly-once / nesting / locality oracle."),
-        "note": "Trusted: Lean kernel; table extractor; generators. No tree-level editAt theorem for all positions (frame rules + bounded instances).",
-        "technique": "Lean 4 proof over source-extracted traversal table + visitor trace correspondence",
+        "text": ('Generic table-driven visitor model over rose trees; the traversal table (children, order, assignment) and dispatch registries are RE-EXTRACTED from vi'
+                 'sitor.py / ast.py each run: identity_noop, balanced, once, visitM_edit with delete_at / replace_at / skip_at (= Spec.editAt at every position reached '
+                 'through the implemented child relation), frame rules, chained_order (all tables/visitors), table facts by decide +kernel; coverage is coverage_partial'
+                 ' with machine-checked gap witnesses (findings W1-W6; each names the literal event list in test_visitor.py that pins it). Tied by trace/tree correspond'
+                 'ence with scripted real visitors at every node position, Spec.editAt vs the real code, and the direct exactly-once / nesting / locality oracle.'),
+        "note": ('Trusted: Lean kernel; table extractor; generators.'),
+        "technique": 'Lean 4 proof over source-extracted traversal table + visitor trace correspondence',
     },
     "C19": {
-        "text": ("Model of collect_fields_untyped / selected_fields / MaxDepthValidationRule and an independent depth specification: flags_iff, no_raise, name_filter, wrap_inline_ge, "
-                 "wrap_spread_ge (acyclicity of the wrapped document as hypothesis), depth_fuel_irrelevant, measured_eq_depth, all full for the fixed rule; decide refutations for the "
-                 "original rule. Tied by correspondence (error set, raises) and the direct oracle flagged <=> spec depth > limit on exhaustive small distributions over fragments."),
-        "note": "Trusted: Lean kernel; generators. Known finding Q1-vars (raw request variables: omitted directive variable with default raises CoercionError).",
-        "technique": "Lean 4 proof (rule = spec depth) + exhaustive small-scope correspondence",
+        "text": ('Model of collect_fields_untyped / selected_fields / MaxDepthValidationRule (with per-operation variable coercion) and an independent depth specificati'
+                 'on: flags_iff(_v), no_raise(_v), name_filter, wrap_inline_ge, wrap_spread_ge (acyclicity of the wrapped document as hypothesis), depth_fuel_irrelevant'
+                 ', measured_eq_depth, selected_fields_complete; decide refutations for the original rule and the original selected_fields. Tied by correspondence (erro'
+                 'r set, raises, listed paths) and the direct oracles flagged <=> spec depth > limit and listed paths = reference paths on exhaustive small distribution'
+                 's over fragments, also through graphql_blocking with validators.'),
+        "note": ('Trusted: Lean kernel; generators. Soundness of selected_fields (only selected paths listed) is checked by the oracle, not proved.'),
+        "technique": 'Lean 4 proof (rule = spec depth, path completeness) + exhaustive small-scope correspondence',
     },
     "C10": {
-        "text": ("Lean theorems about the hand model of index_to_loc / to_dict of every error class / GraphQLResult.response / the staged "
-                 "process_graphql_query / the executors' error capture: loc_bounds (all texts, all positions), index_to_loc_total_iff, "
-                 "data_omitted_iff, null_error_bijection, result_wellformed, response_wellformed_partial (+ refutation of the full statement: "
-                 "the misspelt `columne` key, finding X1); response keys and the data=None flags of the _abort calls are re-extracted from "
-                 "source each run; tied by stage-outcome correspondence and a direct WellFormed + bijection oracle on four configurations."),
-        "note": ("Trusted: Lean kernel; extraction of key names/abort flags; stage internals (parse, validate, coerce) are observed through the real "
-                 "functions, scalar serialisers and highlight_location only exercised; async/thread-pool scheduling compared as multisets."),
-        "technique": "Lean 4 proof over staged response model + extracted keys + direct response-format oracle",
+        "text": ('Lean theorems about the hand model of index_to_loc / to_dict of every error class / GraphQLResult.response / the staged process_graphql_query / the ex'
+                 "ecutors' error capture: loc_bounds (all texts, all positions, LF/CR/CRLF), index_to_loc_total_iff, data_omitted_iff, null_error_bijection, null_sites_"
+                 'nodup, null_sites_are_null, exactly_one_error_per_site, result_wellformed, executed_response_wellformed, response_wellformed_partial (+ refutation of '
+                 'the full statement: the misspelt `columne` key, finding X1); response keys and the data=None flags of the _abort calls are re-extracted from source ea'
+                 'ch run; tied by stage-outcome correspondence and a direct WellFormed + site/error multiset oracle on four configurations incl. execution-time argument'
+                 ' coercion failures under lists and shared error instances.'),
+        "note": ('Trusted: Lean kernel; extraction of key names/abort flags; stage internals (parse, validate, coerce) are observed through the real functions; sharing '
+                 'of one exception object between registrations is covered by the oracle, not by a theorem.'),
+        "technique": 'Lean 4 proof over staged response model + extracted keys + direct response-format oracle',
     },
     "C13": {
-        "text": ("Lean theorems about a method-by-method model of SchemaValidator: validate_iff/accepts_iff (no error <=> ValidSchema), "
-                 "subtype_iff about Schema.is_subtype TRANSLATED from source on every run, perm_types, reports_all, "
-                 "cache_sound over all histories of validate/register_* (replace_types partial + machine-checked refutation, ledger T3), "
-                 "name_iff about the extracted VALID_NAME_RE classes; tied by correspondence (verdict + set of reporting rules) on "
-                 "generated schemas with labelled violations, permutations and cache histories, and the labelled direct oracle."),
-        "note": ("Trusted: Lean kernel; py2lean translator; extraction of name classes and rule format strings (used only to attribute errors); "
-                 "inspect.signature, build_schema and fix_type_references are exercised, not modelled; direct assignment field.resolver=f is outside the statement."),
-        "technique": "Lean 4 proof over hand model + source-translated is_subtype + labelled-violation correspondence",
+        "text": ('Lean theorems about a method-by-method model of SchemaValidator: validate_iff/accepts_iff (no error <=> ValidSchema), violation_iff (an error is repor'
+                 'ted <=> that rule instance is violated: all violations together, both directions), subtype_iff about Schema.is_subtype TRANSLATED from source each run'
+                 ', perm_types, cache_sound_all (over all histories of validate / register_* / multi-entry replace requests incl. refusals; the accumulation, atomicity '
+                 'and directive flags are RE-EXTRACTED from _replace_types_and_directives), legacy refutations, name_iff about the extracted VALID_NAME_RE classes; tied'
+                 ' by correspondence (verdict + set of reporting rules) on generated schemas with labelled violations, permutations and cache histories, with Lean-guard'
+                 'ed shrinking.'),
+        "note": ('Trusted: Lean kernel; py2lean translator; extraction of name classes, rule format strings (used only to attribute errors) and replace flags; inspect.s'
+                 'ignature, build_schema and fix_type_references are exercised, not modelled; direct assignment field.resolver=f is outside the statement.'),
+        "technique": 'Lean 4 proof over hand model + source-translated is_subtype + labelled-violation correspondence',
     },
     "C20": {
         "text": ("Lean theorems about the safe-change predicates TRANSLATED from differ/__init__.py on every run "
